@@ -104,6 +104,13 @@ func runC13(c *fw.Ctx, idx int) fw.Result {
 		vp.Recur = true
 		vp.PSub = 0.03
 		opts := gen.AnnoOpts{MaxFeats: 4, AllowUnnamed: true, AllowSlip: true, SplitCodons: true, Rotate: true, NoStop: true}
+		if form == "fasta" && idx%120 == 13 {
+			// a number of sequences with a large power of two in it: frequencies k/n that sit exactly
+			// on a half of the 9th printed decimal (1/1024 = 0.0009765625)
+			opts.ExactQueries = []int{1024, 2048, 512, 1536}[r.Intn(4)]
+			opts.GenomeLen = r.Range(12, 60)
+			res.Count("cases_with_power_of_two_sequence_count", 1)
+		}
 		ac = makeAnnoCase(r, c.Thorough(), []string{"gb", "gff"}[r.Intn(2)], form, vp, 50, opts)
 		if form == "sam" {
 			// make SAM queries share mutations: derive them from a common mutated genome
